@@ -151,7 +151,23 @@ type RIB struct {
 	// postChangeHook is the hook assigned by SetPostChangeHook, stored such that
 	// it can be applied to network instances that are created subsequently.
 	postChangeHook RIBHookFn
+
+	// txMu serialises the operations that change the RIB (AddEntry, DeleteEntry
+	// and Flush). Each of them checks references, changes a network instance's
+	// contents and then adjusts reference counts and pending entries in separate
+	// steps, so two of them must not be interleaved.
+	txMu *txMutex
 }
+
+// txMutex is the mutex that serialises changes to a RIB. It is not part of the
+// RIB's contents: any two compare as equal, so that RIBs can still be compared
+// with each other.
+type txMutex struct {
+	sync.Mutex
+}
+
+// Equal reports that two txMutexes are interchangeable.
+func (*txMutex) Equal(*txMutex) bool { return true }
 
 // RIBHolder is a container for a set of RIBs.
 type RIBHolder struct {
@@ -299,6 +315,7 @@ func New(dn string, opt ...RIBOpt) *RIB {
 		niRIB:          map[string]*RIBHolder{},
 		defaultName:    dn,
 		pendingEntries: map[uint64]*pendingEntry{},
+		txMu:           &txMutex{},
 	}
 
 	rhOpt := []ribHolderOpt{}
@@ -464,6 +481,9 @@ func (r *RIB) AddEntry(ni string, op *spb.AFTOperation) ([]*OpResult, []*OpResul
 	if ni == "" {
 		return nil, nil, fmt.Errorf("invalid network instance, %s", ni)
 	}
+
+	r.txMu.Lock()
+	defer r.txMu.Unlock()
 
 	oks, fails := []*OpResult{}, []*OpResult{}
 	checked := map[uint64]bool{}
@@ -789,6 +809,9 @@ func (r *RIB) refdRIB(ni *RIBHolder, ref string) (*RIBHolder, error) {
 
 // DeleteEntry removes the entry specified by op from the network instance ni.
 func (r *RIB) DeleteEntry(ni string, op *spb.AFTOperation) ([]*OpResult, []*OpResult, error) {
+	r.txMu.Lock()
+	defer r.txMu.Unlock()
+
 	niR, ok := r.NetworkInstanceRIB(ni)
 	if !ok || !niR.IsValid() {
 		return nil, nil, fmt.Errorf("invalid network instance, %s", ni)
@@ -2495,6 +2518,9 @@ func (f *FlushErr) Error() string {
 //
 // Flush handles updating the reference counts within the RIB.
 func (r *RIB) Flush(networkInstances []string) error {
+	r.txMu.Lock()
+	defer r.txMu.Unlock()
+
 	errs := []error{}
 
 	for _, netInst := range networkInstances {
